@@ -4314,7 +4314,9 @@ where
                 }
             })?;
 
-            // Replace empty TDS with simplex TDS (preserve kernel)
+            // Replace empty TDS with simplex TDS (preserve kernel); the generation count continues,
+            // so that handles created from the previous TDS stay recognisably stale.
+            new_tds.continue_generation_after(self.tds.generation());
             self.tds = new_tds;
 
             // Re-map vertex key to the rebuilt TDS
